@@ -212,7 +212,7 @@ pub open spec fn only_members_keys(s: Raw, m: Seq<Member>, n: int) -> bool {
     proof {
         perm = choose|p: Seq<int>| is_perm(p, orig.len() as int) && forall|i: int| 0 <= i < members@.len() ==> #[trigger] members@[i] == orig[p[i]];
     }
-@insert_before "let mut total = Uint64::zero();" 1
+@insert_before "~Uint64::zero()" 1
     proof {
         let s1 = deps.storage.view();
         assert forall|k: Seq<u8>| s1.contains_key(k) implies !in_ns(k, "members"@) by {
